@@ -238,6 +238,10 @@ def run(ctx):
         ctx.ob('MUSTPASS', f'{comp} caches are reset before the first block of every recording', rec,
                bool(es) and dominates(es[0], fb) and resets_all_pairs(es[0]),
                {'calls': [e.text() for e in es]}, node=(es[0].node if es else rec.node), construct=f'{comp}._reset_cache()')
+    # ... and the reset really returns a used component to its constructed state (a requantiser whose refresh index survives a
+    # reset never re-estimates its statistics in the next recording when stats_calc_period != 1)
+    from .c12 import reset_chain
+    reset_chain(ctx, ' [a used backend records like a fresh one]')
     rs = [e for e in I.events if e.kind == 'call' and e.data.get('name') == '.reset_start']
     ctx.ob('MUSTPASS', 'the antenna source is marked start-of-observation before the first block (warm-up window requested)', rec,
            bool(rs) and dominates(rs[0], fb), {'calls': [e.text() for e in rs]}, node=(rs[0].node if rs else rec.node),
